@@ -31,6 +31,9 @@ type snapStore struct {
 	pre  func() // before the m-th Update on topic_states_store
 	post func()
 	fail func() bool // should the Update that is about to run fail (its function runs, then the tx rolls back)?
+
+	// mode mig only (mig.go), set before Open: hooks on the alert_store namespace and on Versions().Set
+	mig *migHooks
 }
 
 var errInjected = errors.New("injected storage failure")
@@ -51,13 +54,21 @@ func (s *snapStore) Store(ns string) storage.Interface {
 	if ns == alertservice.TopicStatesNameSpace {
 		return &hooked{Interface: inner, s: s}
 	}
+	if ns == alertservice.AlertNameSpace && s.mig != nil {
+		return &migAlertStore{Interface: inner, m: s.mig}
+	}
 	return inner
 }
 func (s *snapStore) Register(name string, store storage.StoreActioner) { s.reg.Register(name, store) }
-func (s *snapStore) Versions() storage.Versions                        { return s.versions }
-func (s *snapStore) Diagnostic() storage.Diagnostic                    { return s.diag }
-func (s *snapStore) Path() string                                      { return s.path }
-func (s *snapStore) CloseBolt() error                                  { return s.db.Close() }
+func (s *snapStore) Versions() storage.Versions {
+	if s.mig != nil {
+		return &migVersions{Versions: s.versions, m: s.mig}
+	}
+	return s.versions
+}
+func (s *snapStore) Diagnostic() storage.Diagnostic { return s.diag }
+func (s *snapStore) Path() string                   { return s.path }
+func (s *snapStore) CloseBolt() error               { return s.db.Close() }
 
 func (s *snapStore) setHooks(pre, post func(), fail func() bool) {
 	s.mu.Lock()
